@@ -108,7 +108,20 @@ def run_impl(mods, case):
     with common.quiet():
         sched = processing._schedule_rewrites(source, funcs)
         flat = [(t.group_number, t.transaction_number, rng.start, rng.end, rw.new) for t, (rng, rw) in sched]
-        out = processing._apply_rewrites(source, sched)
+        mode = case.get("restore")
+        if mode is None:
+            out = processing._apply_rewrites(source, sched)
+        else:
+            # fault injection into the string-restoration step that runs between the two validity tests
+            # (T10.5 is stated for every `restore` function): "tag" appends a marker line, "break" makes the
+            # text unparsable -> the pass must hand back the source
+            saved = processing._substitute_original_fstrings
+            processing._substitute_original_fstrings = (
+                (lambda o, n: n + "restored\n") if mode == "tag" else (lambda o, n: n + "(\n"))
+            try:
+                out = processing._apply_rewrites(source, sched)
+            finally:
+                processing._substitute_original_fstrings = saved
     return flat, out
 
 
@@ -193,6 +206,10 @@ def property_oracle(case, flat, out) -> list[str]:
     # (d)+(e) text: splice of the applied rewrites, or untouched source when that does not parse
     cand = py_splice(case["source"], flat)
     want = cand if py_valid(cand) else case["source"]
+    if py_valid(cand) and case.get("restore") == "tag":
+        want = cand + "restored\n"
+    elif case.get("restore") == "break":
+        want = case["source"]
     if out != want:
         problems.append(f"pass output differs from the spliced/rolled-back text: {out!r} vs {want!r}")
     return problems
@@ -293,6 +310,10 @@ def check(run: common.Run):
     n_exh = len(cases)
     for _ in range(nrand):
         cases.append(random_case(rnd))
+    for _ in range(150 if run.tier == "quick" else 2000):
+        c = random_case(rnd, bad_p=0.0)
+        c["restore"] = rnd.choice(["tag", "break"])
+        cases.append(c)
     # corpus of minimised past disagreements first
     corpus = []
     for p in sorted((common.VERIF / "corpus" / "sched").glob("*.json")):
